@@ -7,7 +7,7 @@ from hypothesis import strategies as st
 
 VMAX = 10000
 
-SERIES_CLASSES = ["seasonal", "walk", "iid", "constant", "linear", "step", "flat_spikes", "few_values", "extremes", "small", "edge_outlier", "lownoise"]
+SERIES_CLASSES = ["seasonal", "walk", "iid", "constant", "linear", "step", "flat_spikes", "few_values", "extremes", "small", "edge_outlier", "lownoise", "low_amplitude"]
 GAP_CLASSES = ["none", "isolated", "runs", "leading", "trailing", "lead_trail", "all_but_k", "alternating"]
 
 
@@ -80,6 +80,14 @@ def series(draw, nmin=4, nmax=200, classes=None, vmax=VMAX, n=None):
         nz = draw(ints(0, 4))
         noise = draw(st.lists(ints(-nz, nz), min_size=n, max_size=n))
         y = [_clip(round(base + amp * math.sin(2 * math.pi * t / period)) + noise[t], -vmax, vmax) for t in range(n)]
+    elif cls == "low_amplitude":  # a level with a variation of a few units only (increments of an iteration stay below one unit)
+        base = draw(ints(-vmax + 20, vmax - 20))
+        amp = draw(ints(1, 8))
+        steps = draw(st.lists(ints(-2, 2), min_size=n, max_size=n))
+        y, c = [], 0
+        for d in steps:
+            c = max(-amp, min(amp, c + d))
+            y.append(_clip(base + c, -vmax, vmax))
     elif cls == "small":  # values around zero: exact zeros and sign changes are frequent
         y = draw(st.lists(ints(-5, 5), min_size=n, max_size=n))
     else:  # extremes
